@@ -147,6 +147,7 @@ def impl_flag_history(scratch, preset, polya, read_group, samples):
     cur = {}
     seen = []
     proc.collect_reads = lambda sample: None
+    proc.get_chr_list = lambda: []          # no reference in this stand-in (process_sample hands the list to prepare_read_groups since /repo fa8aeb9)
     proc.load_read_info = lambda f: (cur["total"], cur["polya"], set())
 
     def record(sample, f):
